@@ -149,8 +149,13 @@ inline bool Futex::Awaitable::await_suspend(
   node->promise = &handle.promise();
   node->handle = handle;
   auto success = _futex->add_awaiter(node, _expected_value);
-  if (success && _on_suspend) {
-    _on_suspend({id});
+  if (success) {
+    if (_on_suspend) {
+      _on_suspend({id});
+    }
+  } else {
+    // 值不匹配不会挂起，需要归还预先占用的槽位
+    box.take(id);
   }
   return success;
 }
